@@ -15,6 +15,48 @@ use crate::prng::Rng;
 /// the robustness checks (C01, C02, C09), which quantify over all byte strings, switch it off.
 pub static RFC_LIMITS: std::sync::atomic::AtomicBool = std::sync::atomic::AtomicBool::new(true);
 
+thread_local! {
+    /// When set, the generators draw from the whole value space of the types and not only from the values
+    /// that have a wire form: empty strings where the grammar wants 1*CHAR, empty lists where it wants
+    /// one element or more, a status text that starts like a response code.  For the checks that quantify
+    /// over values (C15, C17) and never print them.
+    pub static FREE_VALUES: std::cell::Cell<bool> = const { std::cell::Cell::new(false) };
+}
+
+pub fn free_values() -> bool {
+    FREE_VALUES.with(|f| f.get())
+}
+
+/// run `f` with the value-space flag set (restored afterwards, also on unwind)
+pub fn with_free_values<T>(f: impl FnOnce() -> T) -> T {
+    struct Reset(bool);
+    impl Drop for Reset {
+        fn drop(&mut self) {
+            FREE_VALUES.with(|f| f.set(self.0));
+        }
+    }
+    let _r = Reset(free_values());
+    FREE_VALUES.with(|f| f.set(true));
+    f()
+}
+
+/// element count with lower bound `lo` as the wire form demands; 0 now and then in the free value space
+fn glen(rng: &mut Rng, lo: u64, hi: u64) -> usize {
+    if free_values() && lo > 0 && rng.chance(1, 6) {
+        return 0;
+    }
+    rng.len(lo, hi)
+}
+
+/// string length 1..=max as the wire form demands; 0 now and then in the free value space
+fn slen(rng: &mut Rng, max: usize) -> usize {
+    if free_values() && rng.chance(1, 6) {
+        return 0;
+    }
+    rng.range(1, max.max(1) as u64) as usize
+}
+
+
 pub struct GenCfg {
     /// max nesting depth of body structures (multipart/message) and of BodyExtension::List; 0 = leaves only
     pub max_depth: u32,
@@ -233,7 +275,36 @@ const DICT: &[&[u8]] = &[
     b"nil",
 ];
 
+/// contents that a text-processing step slipped into the parser would alter: trimming (ASCII and Unicode
+/// white space, zero-width and BOM characters at either end), normalisation (decomposed / precomposed /
+/// compatibility forms), case folding, entity / escape / encoded-word decoding, control characters
+const TEXT_SPECIALS: &[&str] = &[
+    "\u{feff}", "\u{feff}report.pdf", "x\u{feff}", "\u{feff}\u{feff}", " x", "x ", "  ", "\tx", "x\t", "\u{a0}x", "x\u{a0}",
+    "\u{3000}", "\u{2028}", "a\u{2028}b", "\u{2029}", "\u{85}", "a\u{85}", "\u{200b}", "\u{200b}x", "x\u{200e}", "\u{ad}",
+    "e\u{301}", "\u{e9}", "\u{212b}", "\u{c5}", "\u{fb01}", "\u{130}", "\u{df}", "SS", "\u{1c5}", "I", "\u{131}",
+    "=?UTF-8?B?w6k=?=", "=?utf-8?q?=C3=A9?=", "&AOk-", "&-", "%41", "%00", "&amp;", "&#65;", "\\n", "\\r\\n", "\\\"",
+    "\x7f", "\x1b[0m", "\x08", "\x0b", "\x0c", "\x01", "\u{1f600}", "\u{10ffff}", "\u{e000}", "\u{fffd}", "\u{ffff}",
+];
+
+/// byte strings that are not UTF-8: a lossy or validating conversion in a byte-valued position shows
+const BYTE_SPECIALS: &[&[u8]] = &[
+    b"\xc3", b"r\xc3\xa9sum\xc3", b"\xed\xa0\x80", b"\xf4\x90\x80\x80", b"\xc0\xaf", b"\xe0\x80\xaf", b"\xff\xfe", b"\xfe\xff",
+    b"\xef\xbb", b"\xef\xbb\xbf\xff", b"\x80", b"\xbf", b"\xf8\x88\x80\x80\x80", b"a\xe2\x82", b"\xe2\x82\xac\xe2",
+];
+
 fn adv_piece(rng: &mut Rng, utf8: bool) -> Vec<u8> {
+    if rng.chance(1, 4) {
+        if !utf8 && rng.chance(1, 3) {
+            return rng.pick(BYTE_SPECIALS).to_vec();
+        }
+        let sp = rng.pick(TEXT_SPECIALS).as_bytes().to_vec();
+        return match rng.below(4) {
+            0 => sp,
+            1 => [sp, b"abc".to_vec()].concat(),
+            2 => [b"abc".to_vec(), sp].concat(),
+            _ => [sp.clone(), b"abc".to_vec(), rng.pick(TEXT_SPECIALS).as_bytes().to_vec()].concat(),
+        };
+    }
     if rng.chance(1, 5) {
         if utf8 {
             rng.pick(NON_ASCII).as_bytes().to_vec()
@@ -297,7 +368,7 @@ fn ordinary_len(rng: &mut Rng, cfg: &GenCfg) -> usize {
     } else if rng.chance(1, 40) && cfg.max_lit > cfg.max_str {
         rng.range(cfg.max_str as u64, cfg.max_lit as u64) as usize
     } else {
-        rng.range(1, cfg.max_str.max(1) as u64) as usize
+        slen(rng, cfg.max_str)
     }
 }
 
@@ -369,7 +440,7 @@ fn opt_utf8(rng: &mut Rng, cfg: &GenCfg) -> Option<Cow<'static, str>> {
 
 /// Non-empty atom (ATOM-CHARs only).
 pub fn gen_atom(rng: &mut Rng, cfg: &GenCfg) -> String {
-    let len = rng.range(1, cfg.max_str.max(1) as u64) as usize;
+    let len = slen(rng, cfg.max_str);
     let all = atom_chars();
     let common = rng.chance(3, 4);
     (0..len)
@@ -417,7 +488,7 @@ fn gen_information(rng: &mut Rng, cfg: &GenCfg, for_continue: bool) -> Option<Co
     let mut s: String = if rng.bool() {
         rng.pick(COMMON).to_string()
     } else {
-        let len = rng.range(1, (cfg.max_str.max(1) * 2) as u64) as usize;
+        let len = slen(rng, cfg.max_str * 2);
         let printable = rng.chance(3, 4);
         let mut s = String::new();
         while s.len() < len {
@@ -431,11 +502,13 @@ fn gen_information(rng: &mut Rng, cfg: &GenCfg, for_continue: bool) -> Option<Co
     };
     // must not look like the start of a response code; for Continue the optional space after "+"
     // would swallow a leading space
-    while s.starts_with('[') || (for_continue && s.starts_with(' ')) {
-        s.remove(0);
-    }
-    if s.is_empty() {
-        s.push('x');
+    if !free_values() {
+        while s.starts_with('[') || (for_continue && s.starts_with(' ')) {
+            s.remove(0);
+        }
+        if s.is_empty() {
+            s.push('x');
+        }
     }
     Some(cow_str(s))
 }
@@ -446,7 +519,7 @@ fn gen_tag(rng: &mut Rng, cfg: &GenCfg) -> RequestId {
         return RequestId(rng.pick(COMMON).to_string());
     }
     let chars: Vec<u8> = (0u8..=0x7f).filter(|c| is_astring_char(*c) && *c != b'+').collect();
-    let len = rng.range(1, cfg.max_str.max(1) as u64) as usize;
+    let len = slen(rng, cfg.max_str);
     RequestId((0..len).map(|_| *rng.pick(&chars) as char).collect())
 }
 
@@ -514,7 +587,7 @@ fn gen_capability(rng: &mut Rng, cfg: &GenCfg) -> Capability<'static> {
 }
 
 fn gen_capabilities(rng: &mut Rng, cfg: &GenCfg) -> Vec<Capability<'static>> {
-    let n = rng.len(1, 6);
+    let n = glen(rng, 1, 6);
     let mut v: Vec<Capability<'static>> = (0..n).map(|_| gen_capability(rng, cfg)).collect();
     if !v.contains(&Capability::Imap4rev1) {
         let at = rng.usize(v.len() + 1);
@@ -569,7 +642,7 @@ fn gen_gmail_labels(rng: &mut Rng, cfg: &GenCfg) -> Vec<Cow<'static, str>> {
 // response codes
 
 fn gen_uid_set(rng: &mut Rng) -> Vec<UidSetMember> {
-    let n = rng.len(1, 5);
+    let n = glen(rng, 1, 5);
     (0..n)
         .map(|_| {
             if rng.bool() {
@@ -592,7 +665,7 @@ pub fn gen_code(rng: &mut Rng, cfg: &GenCfg, idx: usize) -> Option<ResponseCode<
         "badcharset_none" => ResponseCode::BadCharset(None),
         "badcharset_list" => {
             const CS: &[&str] = &["UTF-8", "US-ASCII", "ISO-8859-1", "utf-8", "NIL", "x]"];
-            let n = rng.len(1, 4);
+            let n = glen(rng, 1, 4);
             ResponseCode::BadCharset(Some(
                 (0..n)
                     .map(|_| if rng.bool() { Cow::Borrowed(*rng.pick(CS)) } else { cow_str(gen_utf8(rng, cfg)) })
@@ -647,7 +720,7 @@ fn gen_addresses(rng: &mut Rng, cfg: &GenCfg) -> Option<Vec<Address<'static>>> {
     if rng.chance(1, 3) {
         None
     } else {
-        let n = rng.len(1, 3);
+        let n = glen(rng, 1, 3);
         Some((0..n).map(|_| gen_address(rng, cfg)).collect())
     }
 }
@@ -681,7 +754,7 @@ fn gen_body_params(rng: &mut Rng, cfg: &GenCfg) -> BodyParams<'static> {
     }
     const KEYS: &[&str] = &["CHARSET", "charset", "NAME", "BOUNDARY", "FORMAT"];
     const VALS: &[&str] = &["US-ASCII", "utf-8", "flowed", "----=_Part_1", "file name.txt"];
-    let n = rng.len(1, 3);
+    let n = glen(rng, 1, 3);
     Some(
         (0..n)
             .map(|_| {
@@ -718,7 +791,7 @@ fn gen_body_extension(rng: &mut Rng, cfg: &GenCfg, depth: u32) -> BodyExtension<
         1 => BodyExtension::Str(None),
         2 => BodyExtension::Str(Some(cow_str(gen_utf8(rng, cfg)))),
         _ => {
-            let n = rng.len(1, 4);
+            let n = glen(rng, 1, 4);
             BodyExtension::List((0..n).map(|_| gen_body_extension(rng, cfg, depth + 1)).collect())
         }
     }
@@ -895,7 +968,7 @@ pub fn gen_attribute(rng: &mut Rng, cfg: &GenCfg, idx: usize) -> AttributeValue<
             gen_body_section(rng, cfg, Some(SectionPath::Full(s)))
         }
         "bodysection_part" => {
-            let n = rng.len(1, 4);
+            let n = glen(rng, 1, 4);
             let path: Vec<u32> = (0..n).map(|_| if rng.chance(3, 4) { rng.range(1, 9) as u32 } else { gen_u32(rng) }).collect();
             let text = if rng.chance(1, 3) { None } else { Some(gen_section_text(rng, true)) };
             gen_body_section(rng, cfg, Some(SectionPath::Part(path, text)))
@@ -992,7 +1065,7 @@ fn gen_entry_name(rng: &mut Rng, cfg: &GenCfg) -> String {
     s.push_str(if shared { "/shared" } else { "/private" });
     let atomish = rng.chance(4, 5);
     let component = |rng: &mut Rng| -> String {
-        let len = rng.range(1, cfg.max_str.max(1) as u64) as usize;
+        let len = slen(rng, cfg.max_str);
         (0..len)
             .map(|_| {
                 if atomish || rng.chance(2, 3) {
@@ -1066,7 +1139,7 @@ fn gen_rights(rng: &mut Rng, may_be_empty: bool) -> Vec<AclRight> {
     if may_be_empty && rng.chance(1, 25) {
         return Vec::new();
     }
-    let n = rng.len(1, 8);
+    let n = glen(rng, 1, 8);
     (0..n).map(|_| gen_right(rng)).collect()
 }
 
@@ -1097,7 +1170,7 @@ pub fn gen_response_kind(rng: &mut Rng, cfg: &GenCfg, kind: usize) -> Response<'
         };
     }
     if name == "fetch_mixed" {
-        let n = rng.len(1, 6);
+        let n = glen(rng, 1, 6);
         let attrs = (0..n)
             .map(|_| {
                 let idx = rng.usize(ATTR_KINDS.len());
@@ -1127,7 +1200,7 @@ pub fn gen_response_kind(rng: &mut Rng, cfg: &GenCfg, kind: usize) -> Response<'
         }
         "expunge" => Response::Expunge(gen_u32(rng)),
         "vanished" => {
-            let n = rng.len(1, 6);
+            let n = glen(rng, 1, 6);
             let uids = (0..n)
                 .map(|_| {
                     // a range value is a set: it is kept normalised (low..=high); the printer may spell
@@ -1186,7 +1259,7 @@ pub fn gen_response_kind(rng: &mut Rng, cfg: &GenCfg, kind: usize) -> Response<'
             })
         }
         "mailbox_metadata_solicited" => {
-            let n = rng.len(1, 4);
+            let n = glen(rng, 1, 4);
             Response::MailboxData(MailboxDatum::MetadataSolicited {
                 mailbox: gen_mailbox(rng, cfg),
                 values: (0..n)
@@ -1198,7 +1271,7 @@ pub fn gen_response_kind(rng: &mut Rng, cfg: &GenCfg, kind: usize) -> Response<'
             })
         }
         "mailbox_metadata_unsolicited" => {
-            let n = rng.len(1, 4);
+            let n = glen(rng, 1, 4);
             Response::MailboxData(MailboxDatum::MetadataUnsolicited {
                 mailbox: gen_mailbox(rng, cfg),
                 values: (0..n).map(|_| cow_str(gen_entry_name(rng, cfg))).collect(),
@@ -1225,7 +1298,7 @@ pub fn gen_response_kind(rng: &mut Rng, cfg: &GenCfg, kind: usize) -> Response<'
         "id_nil" => Response::Id(None),
         "id_map" => {
             const KEYS: &[&str] = &["name", "version", "os", "os-version", "vendor", "support-url", "NIL", ""];
-            let n = rng.len(1, 5);
+            let n = glen(rng, 1, 5);
             let mut m: HashMap<Cow<'static, str>, Cow<'static, str>> = HashMap::new();
             let mut tries = 0;
             while m.len() < n && tries < 50 {
